@@ -297,7 +297,7 @@ def exSys : Sys Int where
 def exView (high : Option Int) (total : Int) : View Int where
   id := 7
   current := some 409600
-  memStat := some { activeFile := 204800, inactiveFile := 0, activeAnon := some 0, inactiveAnon := some 0 }
+  memStat := some { activeFile := some 204800, inactiveFile := some 0, activeAnon := some 0, inactiveAnon := some 0 }
   memMin := some 0
   memHigh := high
   memHighTmp := none
@@ -343,5 +343,56 @@ example : SortedIds ({} : PState).tracked ∧ (([exView none 0].map (·.id))).No
   constructor
   · exact List.Pairwise.nil
   · decide
+
+def qCfg : Cfg Rat where
+  limitMinBytes := 0
+  limitMaxBytes := 100000
+  interval := 0
+  pressureMs := 10
+  memPressurePct := 1
+  ioPressurePct := 1
+  maxProbe := 1
+  maxBackoff := 1
+  coeffProbe := 10
+  coeffBackoff := 20
+  swapThreshold := 1
+  swapoutBpsThreshold := 1
+  swapValidation := true
+  immediateBackoff := true
+  modulateSwappiness := false
+  hostMemTotal := 100000000
+
+def qSys : Sys Rat where
+  swaptotal := 8192
+  swapused := 4096
+  swappiness := 60
+  swapoutBps60 := 0
+  swapoutBps300 := 0
+
+def qView : View Rat where
+  id := 7
+  current := some 40960000
+  memStat := some { activeFile := some 20480000, inactiveFile := some 0, activeAnon := some 0, inactiveAnon := some 0 }
+  memMin := some 0
+  memHigh := some int64Max
+  memHighTmp := none
+  memMax := some int64Max
+  effSwapFree := some 4096
+  effSwapMax := some 8192
+  effSwapUtil := some 0
+  memSome := some { avg10 := 0, avg60 := 0, total := 0 }
+  ioSome := some { avg10 := 0, avg60 := 0, total := 0 }
+  ctrlMemory := true
+  highFile := true
+  highTmpFile := false
+  reclaimFile := true
+
+/-- exact arithmetic: an admissible reclaim exists (hypothesis of `reclaim_amount_exact`), with swap
+present and utilisation 0 below the threshold 1 (hypotheses of `unfixed_validateSwap_inverted`) -/
+example : ReclaimOK qCfg qSys qView (reclaimSize qCfg 40960000 20480000) := by
+  refine ⟨alignDown_mod _, ⟨_, _, rfl, rfl, by decide, by decide⟩, fun _ => Or.inr (Or.inr (Or.inr ⟨_, rfl, by decide⟩)), ⟨40960000, 20480000, rfl, by decide, by decide, rfl⟩⟩
+
+example : qSys.swaptotal ≠ 0 ∧ qSys.swappiness ≠ 0 ∧ qView.effSwapMax = some 8192 ∧ qView.effSwapUtil = some 0 := by
+  decide
 
 end C18
